@@ -46,6 +46,7 @@ var fnTargets = []struct {
 	{"certShouldBeForceRenewed", "def certShouldBeForceRenewed (_ : Certificate) : Bool := false", nil},
 	{"LooksLikeHTTPChallenge", "def LooksLikeHTTPChallenge (_ : http_Request) : Bool := false", nil},
 	{"SubjectQualifiesForCert", "def SubjectQualifiesForCert (_ : Str) : Bool := false", nil},
+	{"normalizedName", "def normalizedName (_ : Str) : Str := []", nil},
 	{"MatchWildcard", "def MatchWildcard (_ _ : Str) : Bool := false", nil},
 	{"SubjectIsInternal", "def SubjectIsInternal (_ : Str → Str) (_ : Str → Bool) (_ : Str) : Bool := false",
 		[][2]string{{"hostOnly", "Str → Str"}, {"isInternalIP", "Str → Bool"}}},
